@@ -52,10 +52,14 @@ fn records() -> Vec<ARecord> {
         mk("z.local", ARData::Unknown { code: 65280, data: Bytes(vec![9]) }),
         mk("y.x.local", ARData::Empty { code: 300 }),
         mk("y.x.local", ARData::Unknown { code: 250, data: Bytes(vec![7]) }),
+        // owners outside .local (unicast names travel through the same cache)
+        mk("p.example", a(11)),
+        mk("q.p.example", a(12)),
+        mk("LOCAL.example.com", a(13)),
     ]
 }
 
-const QNAMES: [&str; 8] = ["x.local", "y.x.local", "z.local", "local", "w.local", "ab.c.local", "b.ca.local", "c.local"];
+const QNAMES: [&str; 11] = ["x.local", "y.x.local", "z.local", "local", "w.local", "ab.c.local", "b.ca.local", "c.local", "p.example", "example", "LOCAL.example.com"];
 
 #[derive(Clone, Copy, PartialEq, Debug)]
 enum MKind {
@@ -116,8 +120,10 @@ fn run_history(ops: &[TOp], case: &mut Case, allow_sleep: bool) -> Result<(), Fa
                 pk.answers.push(rr);
                 let bytes = ser_compressed(&pk)?;
                 let parsed = parse(&bytes)?.map_err(|e| Fail::new("c20:unparseable", format!("{:?}", e)))?;
-                let service = lname(&nm("local")).into_owned();
-                let own = lname(&nm("self.local")).into_owned();
+                // the receiving discoverer watches the record's top-level domain (local, example, com)
+                let tld = String::from_utf8_lossy(&recs[i].name.0.last().map(|l| l.0.clone()).unwrap_or_default()).to_string();
+                let service = lname(&nm(&tld)).into_owned();
+                let own = lname(&nm(&format!("self.{}", tld))).into_owned();
                 let t0 = Instant::now();
                 lib("add_response_to_resources", || simple_mdns::verif::verif_add_response_to_resources(parsed, &service, &own, &mut store, &mut None))?;
                 let t1 = Instant::now();
@@ -243,10 +249,10 @@ fn check_real(ops: &Vec<TOp>, case: &mut Case) -> Result<(), Fail> {
 
 fn virtual_strategy(_t: Tier) -> BoxedStrategy<Vec<TOp>> {
     let op = prop_oneof![
-        2 => (0u8..15).prop_map(TOp::AddAuth),
-        4 => (0u8..15, select(vec![0u32, 1, 2, 3600]), proptest::bool::weighted(0.3)).prop_map(|(i, t, f)| TOp::AddCached(i, t, f)),
-        3 => (0u8..15, select(vec![0u32, 1, 2, 3600]), proptest::bool::weighted(0.4)).prop_map(|(i, t, f)| TOp::Receive(i, t, f)),
-        1 => (0u8..15).prop_map(TOp::Remove),
+        2 => (0u8..18).prop_map(TOp::AddAuth),
+        4 => (0u8..18, select(vec![0u32, 1, 2, 3600]), proptest::bool::weighted(0.3)).prop_map(|(i, t, f)| TOp::AddCached(i, t, f)),
+        3 => (0u8..18, select(vec![0u32, 1, 2, 3600]), proptest::bool::weighted(0.4)).prop_map(|(i, t, f)| TOp::Receive(i, t, f)),
+        1 => (0u8..18).prop_map(TOp::Remove),
         1 => Just(TOp::Clear),
         6 => select(vec![0u32, 1, 499, 999, 1000, 1001, 2000, 3_599_999, 3_600_000]).prop_map(TOp::Advance),
     ];
@@ -255,10 +261,10 @@ fn virtual_strategy(_t: Tier) -> BoxedStrategy<Vec<TOp>> {
 
 fn real_strategy(_t: Tier) -> BoxedStrategy<Vec<TOp>> {
     let op = prop_oneof![
-        1 => (0u8..15).prop_map(TOp::AddAuth),
-        3 => (0u8..15, select(vec![0u32, 1, 2]), proptest::bool::weighted(0.3)).prop_map(|(i, t, f)| TOp::AddCached(i, t, f)),
-        3 => (0u8..15, select(vec![0u32, 1, 2]), proptest::bool::weighted(0.4)).prop_map(|(i, t, f)| TOp::Receive(i, t, f)),
-        1 => (0u8..15).prop_map(TOp::Remove),
+        1 => (0u8..18).prop_map(TOp::AddAuth),
+        3 => (0u8..18, select(vec![0u32, 1, 2]), proptest::bool::weighted(0.3)).prop_map(|(i, t, f)| TOp::AddCached(i, t, f)),
+        3 => (0u8..18, select(vec![0u32, 1, 2]), proptest::bool::weighted(0.4)).prop_map(|(i, t, f)| TOp::Receive(i, t, f)),
+        1 => (0u8..18).prop_map(TOp::Remove),
         4 => select(vec![250u16, 600, 1050]).prop_map(TOp::Sleep),
     ];
     vec(op, 2..8)
@@ -280,7 +286,7 @@ fn real_strategy(_t: Tier) -> BoxedStrategy<Vec<TOp>> {
 pub fn def() -> CheckDef {
     CheckDef {
         id: "C20",
-        rule: "model-based histories over 15 records (up to 5 under one owner; unknown type codes 250 / 256 / 65280 and empty RDATA included) on x.local / y.x.local / z.local, two names whose store keys collide (ab.c.local / b.ca.local) and a CHAOS-class twin of one record: add-authoritative, add-cached(ttl in {0,1,2,3600}, cache-flush) either directly or as a record that crosses the wire in a compressed packet and is ingested by the receive loop's add_response_to_resources, re-add, remove, clear and time advances {0,1,499,999,1000,1001,2000,3599999,3600000 ms}; after every step every (name in {x.local,y.x.local,z.local,local,w.local,ab.c.local,b.ca.local,c.local}) x (authoritative(false), authoritative(true), cached(), all()) query is compared with a reference model holding explicit reception instants: a cached record must be returned while certainly younger than its life (ttl, or 1 s with cache-flush) and must not be returned once certainly older; ttl 0 is never returned; authoritative records are returned by authoritative filters at every time, never by cached(), and stay authoritative when the same record is received from the network; removal / clear are immediate. Virtual time = additive ageing hook verif_age; each claim is made only if measured monotonic time around the calls proves it (else counted as undetermined). A second section runs short histories on the real clock with sleeps and no ageing. Non-trivial = a cached record was observed after its expiry was crossed",
+        rule: "model-based histories over 18 records (up to 5 under one owner; three owners outside .local; unknown type codes 250 / 256 / 65280 and empty RDATA included) on x.local / y.x.local / z.local, two names whose store keys collide (ab.c.local / b.ca.local) and a CHAOS-class twin of one record: add-authoritative, add-cached(ttl in {0,1,2,3600}, cache-flush) either directly or as a record that crosses the wire in a compressed packet and is ingested by the receive loop's add_response_to_resources, re-add, remove, clear and time advances {0,1,499,999,1000,1001,2000,3599999,3600000 ms}; after every step every (name in {x.local,y.x.local,z.local,local,w.local,ab.c.local,b.ca.local,c.local,p.example,example,LOCAL.example.com}) x (authoritative(false), authoritative(true), cached(), all()) query is compared with a reference model holding explicit reception instants: a cached record must be returned while certainly younger than its life (ttl, or 1 s with cache-flush) and must not be returned once certainly older; ttl 0 is never returned; authoritative records are returned by authoritative filters at every time, never by cached(), and stay authoritative when the same record is received from the network; removal / clear are immediate. Virtual time = additive ageing hook verif_age; each claim is made only if measured monotonic time around the calls proves it (else counted as undetermined). A second section runs short histories on the real clock with sleeps and no ageing. Non-trivial = a cached record was observed after its expiry was crossed",
         assumptions: vec![
             "verif_age(d) subtracts d from every stored instant; the store only compares stored instants with Instant::now(), so this equals advancing the clock (cross-checked by the real-clock section)",
             "claims whose outcome depends on the few microseconds a call takes are withheld and counted (coverage.maxima.undetermined_claims)",
